@@ -30,8 +30,16 @@ Definition plan_dedup (pack_compresses : bool) (ops : list cop) : list (nat * na
                  | Some inf => (i, fst inf, snd inf) | None => (i, 0, 0) end) idxs,
    cs N (inner N N s)).
 
-(* the independent decoder on a content pack file *)
-Definition cp_count (f : list N) : res N :=
-  run f (pbind (cp_open_p 0) (fun p => Ret (cp_content_count (cpk_cp p)))).
-Definition cp_read (f : list N) (i : N) : res (option (N * N * content_loc * option (list N))) :=
-  run f (pbind (cp_open_p 0) (fun p => cp_read_p p i)).
+(* the independent decoder on a content pack file: open once, read the listed contents *)
+Fixpoint read_many_p (p : cpack) (idxs : list N) : prog (list (option (N * N * content_loc * option (list N)))) :=
+  match idxs with
+  | [] => Ret []
+  | i :: idxs => pbind (cp_read_p p i) (fun r => pbind (read_many_p p idxs) (fun rest => Ret (r :: rest)))
+  end.
+Definition cp_read_many (f : list N) (idxs : list N) :=
+  run_n (lenN f) f (pbind (cp_open_p 0) (fun p =>
+    pbind (read_many_p p idxs) (fun rs => Ret (cp_content_count (cpk_cp p), rs)))).
+Lemma cp_read_many_run f idxs :
+  cp_read_many f idxs = run f (pbind (cp_open_p 0) (fun p =>
+    pbind (read_many_p p idxs) (fun rs => Ret (cp_content_count (cpk_cp p), rs)))).
+Proof. apply run_n_run. Qed.
